@@ -1,0 +1,42 @@
+// Copyright JAMF Software, LLC
+
+//go:build verif
+
+package cluster
+
+import "github.com/lni/dragonboat/v4"
+
+// VerifView exposes the gossiped shard view (and the memberlist delegate built on it) to the
+// verification harness. Compiled only with the "verif" build tag.
+type VerifView struct {
+	view *shardView
+	del  *delegate
+}
+
+// NewVerifView creates an empty view whose delegate reads local raft info from local.
+func NewVerifView(local func() []dragonboat.ShardInfo) *VerifView {
+	v := newView()
+	return &VerifView{
+		view: v,
+		del: &delegate{shardView: v, infoF: func() Info {
+			if local == nil {
+				return Info{}
+			}
+			return Info{ShardInfoList: local()}
+		}},
+	}
+}
+
+func (v *VerifView) Update(updates []dragonboat.ShardView) { v.view.update(updates) }
+
+func (v *VerifView) UpdateFromShardInfo(infos []dragonboat.ShardInfo) {
+	v.view.update(toShardViewList(infos))
+}
+
+func (v *VerifView) ShardInfo(id uint64) dragonboat.ShardView { return v.view.shardInfo(id) }
+
+func (v *VerifView) Copy() []dragonboat.ShardView { return v.view.copy() }
+
+func (v *VerifView) LocalState(join bool) []byte { return v.del.LocalState(join) }
+
+func (v *VerifView) MergeRemoteState(buf []byte, join bool) { v.del.MergeRemoteState(buf, join) }
